@@ -8,6 +8,12 @@ public/underscore names, absolute/relative/aliased/wildcard imports from earlier
 names, neutral module hooks ``__getattr__``/``__dir__``, class-private style, sunder, ``_``, trailing
 underscore) and are spelled like the structural names of the package (the module itself, its
 ancestors, other modules); sub-modules are also fetched as ``from a.b import c``.
+`__all__` is composed in every direction of the package tree that is importable at that point: from a
+descendant, a sibling, a module of another package and - in "late" modules nothing else imports - from
+the parent / grandparent package (`from .. import __all__ as n`, `import pkg` + `pkg.__all__`,
+`import m as n`), from several sources at once, in chains, with `+`, `+=` and star-unpacking; names an
+`__all__` expression reads are never re-bound later in the module.  Module.exports is compared with
+CPython's `__all__` list (first occurrences, in order; no unexpanded element may remain).
 40% of the cases are *loading sessions*: the code is spread over 2-3 top-level packages (later ones
 import from earlier ones, wildcards below same-named local definitions included), loaded one after
 the other by ONE loader in random order, with resolve_aliases(implicit/external variants) between
@@ -35,7 +41,9 @@ RULE = ("generated acyclic packages of 3-8 modules (0-2 sub-packages, optional n
         "m [as n], from a.b import m [as n]), wildcard imports, __all__ forms (list, tuple, concatenation, +=, other module's "
         "__all__ + list). 10% of bound names are underscore-shaped (dunder, module hooks, class-private style, sunder, "
         "'_', trailing '_'), 10% are spelled like the module itself / an ancestor package / another module. "
-        "40% loading sessions: 2-3 top-level packages importing from one another, one loader, random load order, "
+        "60% of first __all__ statements are compositions of other modules' __all__ (descendant, sibling, other package, and - "
+        "from 'late' modules nothing imports - ancestor packages; 1-3 sources, chains, +, +=, star-unpacking; through import m [as n] "
+        "+ n.__all__ or from m import __all__ as n). 40% loading sessions: 2-3 top-level packages importing from one another, one loader, random load order, "
         "resolve_aliases() between loads (implicit x external False/None/True), optionally a package only external=True pulls "
         "in; judged after the last step. Only packages CPython imports without error are judged. distinct = digest of files; non-trivial = >=1 wildcard, "
         ">=1 __all__ and a re-export chain of length >=2")
@@ -53,7 +61,12 @@ REQUIRED_COUNTERS = ["packages_compared", "modules_compared", "names_compared", 
                      "underscore_shaped_names_compared", "namespace_spelled_names_compared",
                      "sessions_compared", "session_loads_after_a_resolve", "session_wildcard_expansions_after_first_resolve",
                      "session_packages_pulled_in_by_external_resolve", "late_wildcards_over_another_package",
-                     "late_wildcards_overriding_earlier_local_definition"]
+                     "late_wildcards_overriding_earlier_local_definition",
+                     "exports_lists_compared", "composed_exports_lists_compared", "exports_composed_from_ancestor",
+                     "exports_composed_from_ancestor_itself_composed", "exports_composed_from_descendant",
+                     "exports_composed_from_sibling_or_cousin", "exports_composition_chains",
+                     "exports_composed_from_several_sources", "exports_compositions_star", "exports_compositions_augassign",
+                     "exports_compositions_imported_all_name", "exports_compositions_dotted_module"]
 EXHAUSTIVE = {"quick": False, "thorough": False}
 ASSUMPTIONS = ["import graphs are acyclic by construction (across the packages of a session too)",
                "a session never loads a package twice; when its last resolve_aliases() loaded packages itself, one more call settles the data (loader documentation)", "implicitly bound sub-modules (not bound by a statement of that module) are dropped on both sides"]
@@ -151,6 +164,7 @@ def judge(rec, case, files, tops, ref, pkgs, load_order=()) -> list[tuple]:  # n
     implicit = implicit_submodule_names(files, ref)
     collection = pkgs[0].modules_collection
     late = session_effects(files, ref, list(load_order))
+    compositions = all_references(files, set(ref["modules"]))
     for gmod in (m for pkg in pkgs for m in walk_modules(pkg)):
         rmod = ref["modules"].get(gmod.path)
         if rmod is None:
@@ -191,10 +205,25 @@ def judge(rec, case, files, tops, ref, pkgs, load_order=()) -> list[tuple]:  # n
                 rec.count("underscore_shaped_names_compared")
             if n in structural:
                 rec.count("namespace_spelled_names_compared")
-        # exports
-        if rmod["all"] is not None:
+        # exports: Module.exports against the real `__all__` list (order and repetitions included)
+        if rmod["all"] is None:
+            if gmod.exports is not None:
+                problems.append((f"{gmod.path} has exports although CPython's module has no __all__", [str(e) for e in gmod.exports], None, None, []))
+                continue
+        else:
+            rec.count("exports_lists_compared")
+            if gmod.path in compositions:
+                rec.count("composed_exports_lists_compared")
+            unexpanded = [str(e) for e in gmod.exports or () if not isinstance(e, str)]
+            if unexpanded:
+                fid = F_EXPORTS_STACK if gmod.path in late["groups"][F_EXPORTS_STACK]["raw"] else None
+                problems.append((f"__all__ of {gmod.path} keeps unexpanded element(s) after loading and resolving", unexpanded,
+                                 rmod["all"], fid, [F_EXPORTS_STACK]))
+                continue
             gall = None if gmod.exports is None else [e if isinstance(e, str) else e.name for e in gmod.exports]
-            if gall is None or list(gall) != list(rmod["all"]):
+            # repetitions carry no meaning for `import *` (Griffe drops those coming from a spliced-in list, CPython's list
+            # keeps them): compared by first occurrences, in order
+            if gall is None or list(dict.fromkeys(gall)) != list(dict.fromkeys(rmod["all"])):
                 fid, tried = classify_exports(gmod.path, gall, rmod["all"], late)
                 problems.append((f"__all__ of {gmod.path} differs", gall, rmod["all"], fid, tried))
                 continue
@@ -478,16 +507,21 @@ def from_dot_imported_submodules(files: dict) -> set[str]:
 
 
 def classify_names(mod_path: str, missing: list, extra: list, files: dict, ref: dict, late: dict | None = None) -> tuple[str | None, list[str]]:
-    """Every missing name must be explained by a listed mechanism (two of them may meet in one module); none extra."""
-    tried = ["C05-init-from-dot-import-not-recorded", "C05-wildcard-consumed-before-its-source-is-complete"]
+    """Every missing name must be explained by a listed mechanism (several of them may meet in one module); none extra."""
+    groups = late["groups"] if late else {}
+    tried = ["C05-init-from-dot-import-not-recorded", *groups]
     if not missing or extra:
         return None, tried
     dotted = from_dot_imported_submodules(files)
     names = ref["modules"][mod_path]["names"]
-    lost = late["missed"].get(mod_path, ()) if late else ()
-    by = {n: ("C05-wildcard-consumed-before-its-source-is-complete" if n in lost else
-              "C05-init-from-dot-import-not-recorded" if names[n]["k"] == "module" and names[n]["id"] in dotted else None)
-          for n in missing}
+
+    def why(n: str) -> str | None:
+        for fid, g in groups.items():
+            if n in g["missed"].get(mod_path, ()):
+                return fid
+        return "C05-init-from-dot-import-not-recorded" if names[n]["k"] == "module" and names[n]["id"] in dotted else None
+
+    by = {n: why(n) for n in missing}
     if all(by.values()):
         return sorted(set(by.values()))[-1], tried
     return None, tried
@@ -521,37 +555,125 @@ def module_references(files: dict, known: set[str]) -> dict[str, dict[str, str]]
     return out
 
 
-def all_references(files: dict, known: set[str]) -> dict[str, list[str]]:
-    """Per module: the modules X whose `X.__all__` its own `__all__` statements are built from."""
+def all_references(files: dict, known: set[str], details: dict | None = None) -> dict[str, list[str]]:
+    """Per module: the modules X whose `__all__` its own `__all__` statements are built from, whatever the spelling:
+    `n.__all__` with n bound by `import X as n` / `from P import X [as n]`, `a.b.c.__all__` after `import a.b.c`, or a
+    bare name n bound by `from X import __all__ as n`.  ``details`` (optional) receives per module the syntactic
+    features of its compositions."""
     import ast
 
     refs = module_references(files, known)
     out: dict[str, list[str]] = {}
     for rel, src in files.items():
         mod = rel[:-3].replace("/", ".").removesuffix(".__init__")
-        for node in ast.parse(src).body:
+        is_pkg = rel.endswith("__init__.py")
+        tree = ast.parse(src)
+        all_names: dict[str, str] = {}     # name -> module, for `from X import __all__ as name`
+        for node in tree.body:
+            if isinstance(node, ast.ImportFrom):
+                if node.level:
+                    base = mod.split(".") if is_pkg else mod.split(".")[:-1]
+                    base = base[: len(base) - (node.level - 1)]
+                    srcmod = ".".join(base + ([node.module] if node.module else []))
+                else:
+                    srcmod = node.module or ""
+                for a in node.names:
+                    if a.name == "__all__" and srcmod in known:
+                        all_names[a.asname or a.name] = srcmod
+        for node in tree.body:
             if isinstance(node, (ast.Assign, ast.AugAssign, ast.AnnAssign)) and node.value is not None:
                 targets = node.targets if isinstance(node, ast.Assign) else [node.target]
                 if not any(isinstance(t, ast.Name) and t.id == "__all__" for t in targets):
                     continue
+                found: list[str] = []
+                inside_attr: set[int] = set()
                 for sub in ast.walk(node.value):
-                    if (isinstance(sub, ast.Attribute) and sub.attr == "__all__" and isinstance(sub.value, ast.Name)
-                            and sub.value.id in refs.get(mod, {})):
-                        out.setdefault(mod, []).append(refs[mod][sub.value.id])
+                    if isinstance(sub, ast.Attribute) and sub.attr == "__all__":
+                        parts: list[str] = []
+                        cur = sub.value
+                        while isinstance(cur, ast.Attribute):
+                            parts.append(cur.attr)
+                            inside_attr.add(id(cur))
+                            cur = cur.value
+                        if isinstance(cur, ast.Name):
+                            inside_attr.add(id(cur))
+                            parts.append(cur.id)
+                            dotted = ".".join(reversed(parts))
+                            if len(parts) == 1 and cur.id in refs.get(mod, {}):
+                                found.append(refs[mod][cur.id])
+                                details is not None and details.setdefault(mod, set()).add("module-name")
+                            elif dotted in known and parts[-1] in refs.get(mod, {}):
+                                found.append(dotted)
+                                details is not None and details.setdefault(mod, set()).add("dotted-module")
+                for sub in ast.walk(node.value):
+                    if isinstance(sub, ast.Name) and id(sub) not in inside_attr and sub.id in all_names:
+                        found.append(all_names[sub.id])
+                        details is not None and details.setdefault(mod, set()).add("imported-all-name")
+                if found:
+                    out.setdefault(mod, []).extend(found)
+                    if details is not None:
+                        feats = details.setdefault(mod, set())
+                        if isinstance(node, ast.AugAssign):
+                            feats.add("augassign")
+                        if any(isinstance(sub, ast.Starred) for sub in ast.walk(node.value)):
+                            feats.add("star")
+                        if any(isinstance(sub, ast.BinOp) for sub in ast.walk(node.value)):
+                            feats.add("plus")
     return out
 
 
-def session_effects(files: dict, ref: dict, load_order: list[str]) -> dict:
-    """What the *order of loading* can cost a module, derived from the sources, CPython's view and the order in which the
-    loader finished loading the packages (on_package_loaded) - never from Griffe's answer.
+def count_composition_classes(rec, files: dict, ref: dict) -> None:  # noqa: ANN001
+    """Evidence for the directions of `__all__` compositions across the package tree (from the sources + CPython's view)."""
+    details: dict[str, set] = {}
+    comp = all_references(files, set(ref["modules"]), details)
+    for mod, sources in comp.items():
+        if ref["modules"].get(mod, {}).get("all") is None:
+            continue
+        rec.count("exports_compositions")
+        if len(set(sources)) > 1:
+            rec.count("exports_composed_from_several_sources")
+        for feat in details.get(mod, ()):
+            rec.count("exports_compositions_" + feat.replace("-", "_"))
+        for x in set(sources):
+            chained = x in comp
+            if mod.startswith(x + "."):
+                rec.count("exports_composed_from_ancestor")
+                if chained:
+                    rec.count("exports_composed_from_ancestor_itself_composed")
+            elif x.startswith(mod + "."):
+                rec.count("exports_composed_from_descendant")
+            elif x.split(".")[0] != mod.split(".")[0]:
+                rec.count("exports_composed_from_another_package")
+            else:
+                rec.count("exports_composed_from_sibling_or_cousin")
+            if chained:
+                rec.count("exports_composition_chains")
 
-    ``dropped[M]``: elements of M's `__all__` that come from `X.__all__` with X's package loaded after M's (expand_exports
-    drops such an element for good), or from `S.__all__` with the element in ``dropped[S]``.
-    ``late[S]``: names CPython binds in S through a top-level `from X import *` that crosses into a package loaded after
-    S's package (only a later call can expand it), or with the name in ``late[X]``, or with the name in ``dropped[X]``.
-    ``missed[M]``: names M gets, per CPython, through `from S import *` with the name in ``late[S]`` (at least one wildcard
-    hop away from the late crossing: M's placeholder is expanded and removed as soon as S is loaded, with what S holds
-    then), or directly through `from X import *` with the name in ``dropped[X]``."""
+
+F_SESSION = "C05-wildcard-consumed-before-its-source-is-complete"
+F_WILD_STACK = "C05-wildcard-over-module-still-being-expanded"
+F_EXPORTS_STACK = "C05-exports-spliced-from-module-still-being-expanded"
+
+
+def session_effects(files: dict, ref: dict, load_order: list[str]) -> dict:
+    """What the *order of expansion* can cost a module, derived from the sources, CPython's view and the order in which
+    the loader finished loading the packages (on_package_loaded) - never from Griffe's answer.  Three listed mechanisms,
+    each with its own sets (``groups``: finding id -> {"late", "missed", "dropped"}):
+
+    * loading order (sessions).  ``dropped[M]``: elements of M's `__all__` that come from `X.__all__` with X's package
+      loaded after M's (expand_exports drops such an element for good), or from `S.__all__` with the element in
+      ``dropped[S]``.  ``late[S]``: names CPython binds in S through a top-level `from X import *` crossing into a package
+      loaded after S's package (only a later call can expand it), or with the name in ``late[X]`` / ``dropped[X]``.
+      ``missed[M]``: names M gets through `from S import *` with the name in ``late[S]`` (M's placeholder is expanded and
+      removed as soon as S is loaded), or with the name in ``dropped[S]``.
+    * a wildcard over a module that is still being expanded: D does `from M import *` while M reaches D by going down to
+      sub-modules and along wildcard imports (M is an ancestor of D, or wildcard-imports something above D): the names M
+      itself receives through wildcards are collected but not applied yet when D is expanded -> ``missed[D]``.
+    * `__all__` spliced from a module that is still being expanded: D's `__all__` references M's while M's own `__all__`
+      references a module from which D is reached by references / going down to sub-modules: D copies M's unexpanded
+      elements -> ``dropped[D]`` (names M's list takes from other lists); whoever splices D's list inherits them.
+
+    The top-level keys "late" / "missed" / "dropped" are those of the loading-order group."""
     rank = {t: i for i, t in enumerate(load_order)}
     wild = wildcard_sources(files)
     mods = ref["modules"]
@@ -565,41 +687,89 @@ def session_effects(files: dict, ref: dict, load_order: list[str]) -> dict:
             return []
         return list(info["all"]) if info["all"] is not None else [n for n in info["names"] if not n.startswith("_")]
 
-    allrefs = all_references(files, set(mods))
-    dropped: dict[str, set[str]] = {m: set() for m in mods}
+    def same(a: str, b: str, n: str) -> bool:
+        return n in mods[a]["names"] and mods[a]["names"][n] == mods[b]["names"].get(n)
+
+    children: dict[str, list[str]] = {}
+    for m in mods:
+        if "." in m:
+            children.setdefault(m.rsplit(".", 1)[0], []).append(m)
+    allrefs = {m: [x for x in xs if x in mods] for m, xs in all_references(files, set(mods)).items() if m in mods}
+    wild = {m: [x for x in xs if x in mods] for m, xs in wild.items() if m in mods}
+
+    def reach(starts: list[str], edges: list[dict]) -> set[str]:
+        out: set[str] = set()
+        todo = list(starts)
+        while todo:
+            m = todo.pop()
+            if m in out:
+                continue
+            out.add(m)
+            for e in edges:
+                todo.extend(e.get(m, ()))
+        return out
+
+    def propagate(dropped: dict, late_cross, miss_cross) -> dict:  # noqa: ANN001
+        late: dict[str, set[str]] = {m: set() for m in mods}
+        missed: dict[str, set[str]] = {m: set() for m in mods}
+        changed = True
+        while changed:
+            changed = False
+            for s_mod, sources in wild.items():
+                for x in sources:
+                    for n in exposed(x):
+                        if not same(s_mod, x, n):
+                            continue
+                        miss = n in late[x] or n in dropped[x] or miss_cross(s_mod, x, n)
+                        if n not in late[s_mod] and (miss or late_cross(s_mod, x)):
+                            late[s_mod].add(n)
+                            changed = True
+                        if n not in missed[s_mod] and miss:
+                            missed[s_mod].add(n)
+                            changed = True
+        return {"late": late, "missed": missed, "dropped": dropped}
+
+    def close_over_refs(dropped: dict) -> None:
+        changed = True
+        while changed:
+            changed = False
+            for m_mod, sources in allrefs.items():
+                for x in sources:
+                    if not dropped[x] <= dropped[m_mod]:
+                        dropped[m_mod] |= dropped[x]
+                        changed = True
+
+    never = lambda *a: False  # noqa: E731
+    # 1. loading order
+    d1: dict[str, set[str]] = {m: set() for m in mods}
+    for m_mod, sources in allrefs.items():
+        for x in sources:
+            if before(m_mod, x):
+                d1[m_mod] |= set(mods[x]["all"] or ())
+    close_over_refs(d1)
+    g1 = propagate(d1, before, never)
+    # 2. wildcard over a module still being expanded
+    received = {m: {n for x in wild.get(m, ()) for n in exposed(x) if same(m, x, n)} for m in mods}
+    below = {m: reach([*children.get(m, ()), *wild.get(m, ())], [children, wild]) for m in mods if m in wild or m in children}
+    g2 = propagate({m: set() for m in mods}, never, lambda s_mod, x, n: s_mod in below.get(x, ()) and n in received[x])
+    # 3. __all__ spliced from a module still being expanded
+    d3: dict[str, set[str]] = {m: set() for m in mods}
+    raw: set[str] = set()       # modules that copy unexpanded elements (even ones that would expand to nothing)
+    for d_mod, sources in allrefs.items():
+        for m_mod in sources:
+            if m_mod in allrefs and d_mod in reach(list(allrefs[m_mod]), [children, allrefs]):
+                d3[d_mod] |= {n for x in allrefs[m_mod] for n in (mods[x]["all"] or ())}
+                raw.add(d_mod)
+    close_over_refs(d3)
     changed = True
     while changed:
         changed = False
         for m_mod, sources in allrefs.items():
-            for x in sources:
-                if m_mod not in mods or x not in mods:
-                    continue
-                add = set(mods[x]["all"] or ()) if before(m_mod, x) else dropped[x]
-                if not add <= dropped[m_mod]:
-                    dropped[m_mod] |= add
-                    changed = True
-    late: dict[str, set[str]] = {m: set() for m in mods}
-    missed: dict[str, set[str]] = {m: set() for m in mods}
-    changed = True
-    while changed:
-        changed = False
-        for s_mod, sources in wild.items():
-            if s_mod not in mods:
-                continue
-            mine = mods[s_mod]["names"]
-            for x in sources:
-                if x not in mods:
-                    continue
-                for n in exposed(x):
-                    if n not in mine or mine[n] != mods[x]["names"].get(n):
-                        continue
-                    if n not in late[s_mod] and (before(s_mod, x) or n in late[x] or n in dropped[x]):
-                        late[s_mod].add(n)
-                        changed = True
-                    if n not in missed[s_mod] and (n in late[x] or n in dropped[x]):
-                        missed[s_mod].add(n)
-                        changed = True
-    return {"late": late, "missed": missed, "dropped": dropped}
+            if m_mod not in raw and any(x in raw for x in sources):
+                raw.add(m_mod)
+                changed = True
+    g3 = {**propagate(d3, never, never), "raw": raw}
+    return {**g1, "groups": {F_SESSION: g1, F_WILD_STACK: g2, F_EXPORTS_STACK: g3}}
 
 
 def passes_through_missed(collection, mod_path: str, name: str, missed: dict) -> bool:  # noqa: ANN001
@@ -629,15 +799,15 @@ def classify_exports(mod_path: str, gall: list | None, rall: list, late: dict) -
     reaches the module through `X.__all__` of a package loaded later (session_effects: dropped)."""
     tried = ["C05-unloaded-exports-element-dropped"]
     dropped = late["dropped"].get(mod_path, set())
-    if gall is None or not dropped or len(gall) >= len(rall):
+    if gall is None or not dropped:
         return None, tried
-    i = 0
-    for e in rall:
-        if i < len(gall) and gall[i] == e:
-            i += 1
-        elif e not in dropped:
-            return None, tried
-    return ("C05-unloaded-exports-element-dropped", tried) if i == len(gall) else (None, tried)
+    # first occurrences, as compared; a dropped element may come back later in the list as a literal, so the elements at
+    # risk are taken out of both sequences before comparing the order of the others
+    gall, rall = list(dict.fromkeys(gall)), list(dict.fromkeys(rall))
+    if set(gall) <= set(rall) and set(rall) - set(gall) <= dropped and (
+            [e for e in gall if e not in dropped] == [e for e in rall if e not in dropped]):
+        return "C05-unloaded-exports-element-dropped", tried
+    return None, tried
 
 
 def classify_target(mod_path: str, name: str, got: dict, want: dict, files: dict, ref: dict | None = None,
@@ -645,9 +815,10 @@ def classify_target(mod_path: str, name: str, got: dict, want: dict, files: dict
     tried = ["C05-init-from-dot-import-not-recorded"]
     if want["k"] == "module" and want["id"] in from_dot_imported_submodules(files):
         return "C05-init-from-dot-import-not-recorded", tried
-    tried.append("C05-wildcard-consumed-before-its-source-is-complete")
-    if late and collection is not None and passes_through_missed(collection, mod_path, name, late["missed"]):
-        return "C05-wildcard-consumed-before-its-source-is-complete", tried
+    for fid, g in (late["groups"].items() if late and collection is not None else ()):
+        tried.append(fid)
+        if passes_through_missed(collection, mod_path, name, g["missed"]):
+            return fid, tried
     tried.append("C05-repeated-wildcard-skip-keeps-older-line")
     if ref is not None and got and repeated_wildcard_keeps_older_line(mod_path, name, got, want, files, ref):
         return "C05-repeated-wildcard-skip-keeps-older-line", tried
@@ -745,6 +916,7 @@ def run_case(rec, files: dict, top, nontrivial: bool, tags=(), session: list | N
                 rec.count("session_packages_loaded_late_explicitly", stats["late_explicit_loads"])
                 count_session_classes(rec, files, ref, tops, session)
             count_input_classes(rec, files, ref)
+            count_composition_classes(rec, files, ref)
             res = judge(rec, case, files, tops, ref, pkgs, stats["load_order"])
     except Exception as exc:  # noqa: BLE001
         rec.fail_exc(case, f"{type(exc).__name__} while loading / resolving an acyclic package", exc, nontrivial=nontrivial, tags=tags)
@@ -805,7 +977,7 @@ def gen_session(rng: random.Random) -> tuple[dict, list[str], list[list]]:
     pkgs: list[packages.Pkg] = []
     files: dict[str, str] = {}
     for nm in names:
-        pkg = packages.gen_package(rng, nm, with_docs=True, nmods=(2, 5), foreign=list(pkgs))
+        pkg = packages.gen_package(rng, nm, with_docs=True, nmods=(2, 5), foreign=list(pkgs), late=0.5, compose_prob=0.6)
         pkgs.append(pkg)
         files.update(pkg.files())
     order = list(names)
@@ -863,7 +1035,7 @@ def run_shard(spec: dict, rec) -> None:  # noqa: ANN001
                 nontrivial, tags = features(files)
                 run_case(rec, files, tops, nontrivial, (*tags, "session"), session)
                 continue
-            pkg = packages.gen_package(rng, "pk", with_docs=True)
+            pkg = packages.gen_package(rng, "pk", with_docs=True, late=0.5, compose_prob=0.6)
             files = pkg.files()
             nontrivial, tags = features(files)
             run_case(rec, files, "pk", nontrivial, tags)
